@@ -160,6 +160,16 @@ Theorem C03_filter_exact :
 Proof. exact find_preds_exact. Qed.
 Print Assumptions C03_filter_exact.
 
+(* no hypothesis on the descriptors is left for a store that serves plain descriptors (a reloaded
+   OCI layout since fix fda86b1; the harness asserts it on every reopened source) *)
+Theorem C03_filter_exact_plain :
+  forall (s : source) (fs : list filter) (x : nat),
+    s_lister s = false -> Forall plain_desc (s_preds s x) ->
+    map d_id (find_preds s fs x) =
+    List.filter (fun id => forallb (fun f => keep_spec s f id) fs) (map d_id (s_preds s x)).
+Proof. exact find_preds_exact_plain. Qed.
+Print Assumptions C03_filter_exact_plain.
+
 Theorem C03_filter_followed_iff :
   forall (s : source) (fs : list filter) (x y : nat),
     Forall (served_ok s) (s_preds s x) ->
